@@ -312,19 +312,35 @@ def _emitter(run, ci):
     _indices(run, ci, fn, K, defs, in_loop=False)
     # steps taken from the matching grid axis
     init = ci.methods.get('__init__')
-    d = {norm(t): norm(v) for t, v, s in stores(init) if isinstance(s, ast.Assign)}
+    # decided on the values the constructor leaves in the fields (straight-line evaluation: a field read back after it was stored is its value)
+    from ..algebra import SymEval as _SE, run_block as _rb, L as _L
+    ev_ = _SE()
+    flat = [st for st in init.body if not isinstance(st, (ast.If, ast.Raise, ast.Expr))]
+    try:
+        _rb(ev_, flat, [])
+    except Exception:
+        pass
     names = ['_dr', '_dphi', '_dz'] if 'Cylindrical' in ci.name else ['_dx', '_dy', '_dz']
     run.subject('C10-R3')
-    if all(d.get('self.' + n) == 'self._grid_steps[%d]' % k for k, n in enumerate(names)):
+    got = {n: ev_.env.get('self.' + n) for n in names}
+    step = lambda k: ev_.ev(ast.parse('self._grid_steps[%d]' % k, mode='eval').body)
+    if all(got[n] is not None and got[n].eq(step(k)) for k, n in enumerate(names)):
         run.ok('C10-R3', ci.name + ' steps', '%s = grid_steps[0..2]' % names)
+    elif any(got[n] is None for n in names):
+        run.undecided('C10-R3', ci.name + ' steps', 'fields %s not assigned at the top level of __init__' % [n for n in names if got[n] is None])
     else:
-        run.fail('C10-R3', '%s|%s|__init__|steps' % (M, ci.name), ci.mod.relpath, init.lineno, '%s takes its steps as %s' % (ci.name, {n: d.get('self.' + n) for n in names}))
+        run.fail('C10-R3', '%s|%s|__init__|steps' % (M, ci.name), ci.mod.relpath, init.lineno,
+                 '%s takes its steps as %s' % (ci.name, {n: got[n].key() for n in names}))
     if 'Cylindrical' in ci.name:
         run.subject('C10-R3')
-        if d.get('period') == 'self._grid_shape[1] * self._grid_steps[1]' and d.get('self._period') == 'period':
+        per = ev_.env.get('self._period')
+        want = ev_.ev(ast.parse('self._grid_shape[1]', mode='eval').body) * step(1)
+        if per is not None and per.eq(want):
             run.ok('C10-R3', 'period', 'n_phi * d_phi')
+        elif per is None or any(l.startswith('?') for l in per.leaves()):
+            run.undecided('C10-R3', 'period', 'value stored in _period not interpreted')
         else:
-            run.fail('C10-R3', '%s|%s|__init__|period' % (M, ci.name), ci.mod.relpath, init.lineno, 'period = %s' % d.get('period'))
+            run.fail('C10-R3', '%s|%s|__init__|period' % (M, ci.name), ci.mod.relpath, init.lineno, 'period = %s' % per.key())
 
 
 def _siblings(run, ints):
